@@ -1,9 +1,17 @@
 use crate::core::Monitor;
 
+pub mod c06;
+pub mod c07;
+pub mod c14;
+pub mod c15;
 pub mod c18;
 
 pub fn get(id: &str) -> Option<Box<dyn Monitor>> {
     match id {
+        "C06" => Some(Box::new(c06::C06)),
+        "C07" => Some(Box::new(c07::C07)),
+        "C14" => Some(Box::new(c14::C14)),
+        "C15" => Some(Box::new(c15::C15)),
         "C18" => Some(Box::new(c18::C18)),
         _ => None,
     }
